@@ -345,6 +345,14 @@ class Ctx:
         self.inputs[name] = v
         return v
 
+    def in_fp(self, name, ty='f64'):
+        if self.concrete is not None:
+            self.inputs[name] = self.concrete[name]
+            return FP(float(self.concrete[name]), ty)
+        v = self.fresh_fp(name, ty)
+        self.inputs[name] = v
+        return v
+
     def in_bool(self, name):
         if self.concrete is not None:
             self.inputs[name] = self.concrete[name]
